@@ -44,6 +44,7 @@ class FunctionTranslator:
         self.stmt_leaves = schema.get('stmts', {})
         self.exceptions = schema.get('exceptions', {})
         self.name = schema['name']
+        self.px = schema.get('prefix', schema['name'])
         self.bound = set()                        # comprehension variables in scope
         self.used_leaves = set()
 
@@ -59,16 +60,16 @@ class FunctionTranslator:
             v = m.group(1)
             if v not in [l[0] for l in self.locals]:
                 raise KeyError(v)
-            return '(%s_%s %s)' % (self.name, v, st)
+            return '(%s_%s %s)' % (self.px, v, st)
         return re.sub(r'\{(\w+)\}', rep, text)
 
     def setter(self, var, value, st='st'):
         fields = []
         for n, _t, _i in self.locals:
             if n == var:
-                fields.append('%s_%s := %s' % (self.name, n, value))
+                fields.append('%s_%s := %s' % (self.px, n, value))
             else:
-                fields.append('%s_%s := %s_%s %s' % (self.name, n, self.name, n, st))
+                fields.append('%s_%s := %s_%s %s' % (self.px, n, self.px, n, st))
         return '{| ' + '; '.join(fields) + ' |}'
 
     # ---- expressions: returns (kind, gallina) with kind in pure/res/cond/condM
@@ -82,7 +83,7 @@ class FunctionTranslator:
             if node.id in self.bound:
                 return 'pure', node.id
             if node.id in [l[0] for l in self.locals]:
-                return 'pure', '(%s_%s st)' % (self.name, node.id)
+                return 'pure', '(%s_%s st)' % (self.px, node.id)
             self.fail(node, 'unknown name')
         if isinstance(node, ast.BoolOp):
             parts = [self.cond(v) for v in node.values]
@@ -294,10 +295,11 @@ class FunctionTranslator:
     def translate(self):
         out = []
         n = self.name
-        out.append('Record %s_st : Type := { %s }.' % (n, '; '.join('%s_%s : %s' % (n, v, t) for v, t, _ in self.locals)))
+        px = self.px
+        out.append('Record %s_st : Type := { %s }.' % (n, '; '.join('%s_%s : %s' % (px, v, t) for v, t, _ in self.locals)))
         body_nodes = list(self.f.body)
         body = self.block(body_nodes)
-        init = '{| ' + '; '.join('%s_%s := %s' % (n, v, i) for v, _t, i in self.locals) + ' |}'
+        init = '{| ' + '; '.join('%s_%s := %s' % (px, v, i) for v, _t, i in self.locals) + ' |}'
         out.append('Definition %s %s : res (%s) :=' % (n, self.s['params'], self.s['returns']))
         out.append('  let st := %s in' % init)
         out.append('  match %s with' % body)
@@ -305,7 +307,7 @@ class FunctionTranslator:
         out.append('  | Ok (Normal st) | Ok (Brk st) | Ok (Cont st) => %s' % self.fill(self.s.get('falloff', 'Raise EUnmodelled')))
         out.append('  | Raise e__ => Raise e__')
         out.append('  end.')
-        unused = [k for k in list(self.leaves) + list(self.stmt_leaves) if k not in self.used_leaves]
+        unused = [k for k in list(self.leaves) + list(self.stmt_leaves) if k not in self.used_leaves and k not in ('True', 'False')]
         return '\n'.join(out), unused
 
 
@@ -345,4 +347,30 @@ def translate_module(repo, mod, header):
         out.append(text)
         out.append('')
     out.append(mod.get('epilogue', ''))
+    # pinned functions: small leaf functions whose meaning the leaf tables (or the correspondence streams) take as
+    # given.  Their source is compared, docstring and whitespace aside, with the text recorded in the schema.
+    trees = {mod['path']: tree}
+    for (rel, qual), want in mod.get('pinned', {}).items():
+        if rel not in trees:
+            trees[rel] = ast.parse(open(os.path.join(repo, rel)).read())
+        try:
+            f = find_function(trees[rel], qual)
+        except KeyError:
+            raise Unsupported(trees[rel], 'pinned function %s not found' % qual, rel)
+        got = pinned_text(f)
+        if got != want:
+            raise Unsupported(f, 'pinned function %s changed: now %r' % (qual, got[:200]), rel)
     return '\n'.join(out)
+
+
+def pinned_text(f):
+    body = list(f.body)
+    if body and isinstance(body[0], ast.Expr) and isinstance(body[0].value, ast.Constant) and \
+            isinstance(body[0].value.value, str):
+        body = body[1:]
+    decos = ''.join('@%s ' % norm(d) for d in getattr(f, 'decorator_list', []))
+    if isinstance(f, ast.ClassDef):
+        head = 'class %s(%s)' % (f.name, ', '.join(norm(b) for b in f.bases))
+    else:
+        head = 'def %s(%s)' % (f.name, norm(f.args))
+    return decos + head + ': ' + '; '.join(norm(b) for b in body)
